@@ -28,12 +28,18 @@ CFG = {
                   "N4 GrowE panicked when the runtime refuses the amount: Spec.alloc_limit = 2^45 ints (runtime maxAlloc), growing to len+n >= alloc_limit must be an error; "
                   "amounts below the limit are assumed allocatable (no out-of-memory in the model; the harness uses amounts <= len+10 or >= 2^46). Theorems carry the premise "
                   "fits s (cap below alloc_limit), true of every real slice. "
+                  "Cross-method state: every slice handed over (the constructor argument, every returned slice) is re-read after every later call of a case; the model must reproduce it exactly (kind 1) "
+                  "and a slice that is no longer linked to the receiver - the result of a copying method, or anything handed over before a detaching method (Clear, Filter: Spec.detaches, theorem C06_detach) - "
+                  "must never change again (kind 2). Capacity is judged kind 2 only where the contents determine it (Spec.pure_cap: Clear -> 0, Clip -> len; theorem C06_certain_cap), elsewhere kind 1. "
+                  "N5 (found while adding struct elements, patch notes/fixes/0042): Unmarshal decoded documents past len into elements lying in the spare capacity (removed elements reappear, result depends on spare capacity); "
+                  "Spec: document i merges with element i of the CONTENTS only (merge_all); struct elements are exercised as codes ID*16+nameIndex on Unsafe/SafeAny[struct] (harness recs.go). "
                   "C06_D9/D10/D11_unrepaired_refuted show that the pre-repair code paths violate C06_copy / C06_cap.",
     "harness": "c06",
     "theorems": [("C06.Props", [
         "C06_pure", "C06_errors", "C06_copy", "C06_cap", "C06_search", "C06_bmap", "C06_fmap_laws",
         "C06_D9_unrepaired_refuted", "C06_D10_unrepaired_refuted", "C06_D11_unrepaired_refuted",
-        "C06_N1_unrepaired_refuted", "C06_N2_unrepaired_refuted", "C06_N3_unrepaired_refuted", "C06_N4_unrepaired_refuted"])],
+        "C06_N1_unrepaired_refuted", "C06_N2_unrepaired_refuted", "C06_N3_unrepaired_refuted", "C06_N4_unrepaired_refuted",
+        "C06_certain_cap", "C06_detach", "C06_N5_unrepaired_refuted"])],
     "trusted": [
         "capacity oracle of append/Grow/Clone/Filter/Unmarshal: universally quantified in the theorems (any oc); in the tie it is instantiated with the capacity the Go runtime chose",
         "sorting and JSON codecs are modelled abstractly (stable insertion sort on the loaded window; decoded JSON data)",
@@ -43,4 +49,6 @@ CFG = {
                  "runtime.growslice capacity policy (oracle)", "Go built-in map (key-sorted association list, key-order iteration)", "int arithmetic as Z"],
     "assumptions": ["element type int for bslice, map[int]int for bmap", "comparison callbacks passed to the sorts by the harness are strict total orders (lt_half only for the stable sort)"],
     "widen_runs": 1,
+    "widen_tier": "quick",
+    "widen_timeout": 150,
 }
